@@ -99,8 +99,9 @@ def main():
         props = only[0].split(",")
     jobs = int(([a.split("=")[1] for a in sys.argv if a.startswith("--jobs=")] or ["3"])[0])
     out = [a.split("=")[1] for a in sys.argv if a.startswith("--out=")]
+    target_only = "--target-only" in sys.argv
     with ThreadPoolExecutor(jobs) as ex:
-        results = list(ex.map(lambda i: one(seed_root, i, props, True), ids))
+        results = list(ex.map(lambda i: one(seed_root, i, [i.split("/")[0]] if target_only else props, True), ids))
     for r in results:
         print("%-7s confirmed=%s tests=%s demo(patched/clean)=%s/%s detected_by=%s with_input=%s %ss %s" % (
             r["id"], r.get("confirmed"), r.get("tests_pass"), r.get("demo_patched_rc"), r.get("demo_clean_rc"),
